@@ -564,7 +564,10 @@ def run(ctx):
             own = im.fmt if im.fmt in ALL else 'raw'
             for sysname in sorted({own, 'luks', 'gpt'} - {'vmdk'}):
                 jobs.append((idx, sysname, 'all', ctx.seed, ctx.thorough))
-            if len(im.data) <= 700:
+            # the VMDK inspector has O(n) states per position on KDMV/text streams
+            # (which chunk completed the header, how much of it arrived): all
+            # positions only for short streams
+            if len(im.data) <= (200 if ctx.thorough else 130):
                 jobs.append((idx, 'vmdk', 'all', ctx.seed, ctx.thorough))
     # biggest first for load balance
     jobs.sort(key=lambda j: -len(_IMAGES[j[0]].data) * (3 if j[1] == 'wrapper' else 1))
